@@ -49,12 +49,21 @@ class DigitField:
             st.assume(z3.And(r >= 0, r < 1))
             # value of "0." + digits: digits / 10**width, a real in [0, 1)
             return [(st, DecimalText(r))]
+        if isinstance(op, ast.Add) and Text.of(other) is not None:
+            return Text([self]).pyvc_binop(E, op, other, st, swapped)
         raise OutOfReach("string operation on a digit field")
+
+    def pyvc_contains(self, E, item, st):
+        if isinstance(item, str) and item and not item.isdigit():
+            return [(st, False)]
+        raise OutOfReach("membership test on a digit field")
 
     def pyvc_attr(self, E, name, st):
         if name == "endswith":
             from .values import BoundMethod, BuiltinRef
             return [(st, _Never())]
+        if name in ("split", "rsplit", "startswith", "replace"):
+            return Text([self]).pyvc_attr(E, name, st)
         raise OutOfReach("attribute %s of a digit field" % name)
 
 
@@ -160,7 +169,7 @@ class _Method:
 
 def is_piece(v):
     from .values import IntStr
-    return isinstance(v, (str, IntStr, DecStr))
+    return isinstance(v, (str, IntStr, DecStr, DigitField))
 
 
 class Text:
@@ -185,7 +194,8 @@ class Text:
         from .values import IntStr
         return "Text(%s)" % " ".join(
             repr(p) if isinstance(p, str) else "<%s>" % (
-                p.term if isinstance(p, IntStr) else p.value) for p in self.pieces)
+                p.term if isinstance(p, IntStr) else p.var if isinstance(p, DigitField)
+                else p.value) for p in self.pieces)
 
     @staticmethod
     def of(v):
@@ -224,9 +234,70 @@ class Text:
         eq = text_equal(E, self, o, st)
         return [(st, eq if isinstance(op, ast.Eq) else z_not(eq))]
 
+    def pyvc_contains(self, E, item, st):
+        # `item in text` for a non-digit character
+        from .values import IntStr
+        if isinstance(item, str) and len(item) == 1 and not item.isdigit() and \
+                all(isinstance(p, (str, DigitField)) or (
+                    item not in ",." and not (item == "-" and isinstance(p, IntStr)))
+                    for p in self.pieces):
+            return [(st, any(isinstance(p, str) and item in p for p in self.pieces))]
+        raise OutOfReach("membership test %r on %r" % (item, self))
+
+    def pyvc_len(self, E, st):
+        n = 0
+        for p in self.pieces:
+            if isinstance(p, str):
+                n += len(p)
+            elif isinstance(p, DigitField):
+                n += p.width
+            else:
+                raise OutOfReach("len of a piecewise text with a variable-width piece")
+        return n
+
+    def _split(self, E, args, kws, st, node, right=False):
+        sep = args[0] if args else None
+        maxsplit = args[1] if len(args) > 1 else kws.get("maxsplit", -1)
+        if not (isinstance(sep, str) and len(sep) == 1 and not sep.isdigit()) or \
+                not isinstance(maxsplit, int):
+            raise OutOfReach("split(%r) on a piecewise text" % (sep,))
+        if sep in ",." and any(isinstance(p, DecStr) for p in self.pieces):
+            raise OutOfReach("split at a decimal mark")
+        if sep == "-" and any(not isinstance(p, (str, DigitField)) for p in self.pieces):
+            raise OutOfReach("split at '-' next to an int spelling")
+        # positions of the separator: only inside concrete pieces
+        parts, cur = [], []
+        for p in self.pieces:
+            if isinstance(p, str):
+                segs = p.split(sep)
+                cur.append(segs[0])
+                for sg in segs[1:]:
+                    parts.append(cur)
+                    cur = [sg]
+            else:
+                cur.append(p)
+        parts.append(cur)
+        if maxsplit >= 0 and len(parts) - 1 > maxsplit:
+            if right:
+                head = parts[:len(parts) - maxsplit]
+                merged = []
+                for i, h in enumerate(head):
+                    merged += h + ([sep] if i + 1 < len(head) else [])
+                parts = [merged] + parts[len(parts) - maxsplit:]
+            else:
+                tail = parts[maxsplit:]
+                merged = []
+                for i, h in enumerate(tail):
+                    merged += h + ([sep] if i + 1 < len(tail) else [])
+                parts = parts[:maxsplit] + [merged]
+        r = st.alloc("list")
+        st.obj(r).items = [Text(x).simplest() for x in parts]
+        return [(st, r)]
+
     def pyvc_attr(self, E, name, st):
         m = {"startswith": self._startswith, "endswith": self._endswith,
-             "replace": self._replace}.get(name)
+             "replace": self._replace, "split": self._split,
+             "rsplit": lambda E, a, k, s_, n: self._split(E, a, k, s_, n, right=True)}.get(name)
         if m is None:
             raise OutOfReach("attribute %s of a piecewise text" % name)
         return [(st, _Method(m))]
@@ -243,6 +314,8 @@ class Text:
                 from .values import IntStr
                 if isinstance(first, IntStr):
                     return [(st, first.term < 0)]
+                return [(st, False)]
+            if isinstance(first, DigitField) and pre and not pre[0].isdigit():
                 return [(st, False)]
         raise OutOfReach("startswith(%r) on %r" % (pre, self))
 
@@ -305,6 +378,10 @@ def text_equal(E, a, b, st):
                 return False
         elif isinstance(p, IntStr) and isinstance(q, IntStr):
             cs.append(E.num_cmp(ast.Eq(), p.term, q.term))
+        elif isinstance(p, DigitField) and isinstance(q, DigitField):
+            if p.width != q.width:
+                return False
+            cs.append(E.num_cmp(ast.Eq(), p.var, q.var))
         elif isinstance(p, DecStr) and isinstance(q, DecStr):
             if p.mark != q.mark:
                 return False
